@@ -35,7 +35,7 @@ import c02widelib as WL
 
 EXTRA_MODS = ["Exec.Check"]
 ORACLES = [E.oracle_spec_values]
-ASSUMPTIONS = ["formula vocabulary of Exec/Model.v (integers/None, calls, references by name/attribute, conditional, try/except, raising expressions)",
+ASSUMPTIONS = ["formula vocabulary of Exec/Model.v (integers/None, calls, references by name/attribute, conditional, try/except, try/finally, raising expressions)",
                "CPython evaluation order, inspect.Signature.bind, traceback line numbers are modelled, exercised by the correspondence",
                "wide class (several spaces, inheritance, space-valued references and attribute paths through them, model-level references and "
                "their shadowing, ItemSpaces, creation / deletion / renaming of cells and spaces, parameter formulas, flags): judged by the (P) "
